@@ -187,7 +187,7 @@ def setLeaf (rfc : Bool) (m : List (Str × Json)) (name : Str) (v : Val) : List 
 
 /-- `addPathToTree` entered with a *nil* map (the list item of an element whose key map came out
     empty, e.g. `a=b[c]`): reads behave like an empty map, the first write panics.  `rec` is the
-    ordinary recursion on a fresh map. `true` = returned nil without touching anything. -/
+    ordinary recursion on a fresh map.  `ok` = returned nil without touching anything. -/
 def nilAdd (rfc : Bool) (rec : Str → Except Err Json) (path : Str) (val : Val) : Except Err Unit :=
   match splitPath path with
   | [] => .error .panic
@@ -200,6 +200,43 @@ def nilAdd (rfc : Bool) (rec : Str → Except Err Json) (path : Str) (val : Val)
       match rec ('/' :: refine) with
       | .error e => .error e
       | .ok _ => .error .panic                     -- `nodemap[pathelems[0]] = elemMap`
+
+/-- `listSlice, ok := nodemap[listName]` followed by the `[]interface{}` assertion
+    (`none`: "Failed to convert list slice"). -/
+def getSlice (m : List (Str × Json)) (listName : Str) : Option (List Json) :=
+  match objGet m listName with
+  | none => some []
+  | some (.arr items) => some items
+  | some _ => none
+
+/-- the key map as a fresh list item (`listItemMap = keyMap`). -/
+def keyObj (km : List (Str × Str)) : Json := .obj (km.map fun kv => (kv.1, Json.str kv.2))
+
+/-- the list branch of `addPathToTree` once the key map `km` is known (`okm` = `km` in iteration
+    order): look the item up, recurse into it (`recur`) or into a new one, give back the slice.
+    `nilRecur` is the recursion with the nil map (possible only when `km` is empty). -/
+def listStep (km okm : List (Str × Str)) (items : List Json)
+    (recur : Json → Except Err Json) (nilRecur : Unit → Except Err Unit) : Except Err (List Json) :=
+  match scanItems okm items 0 (0, none) with
+  | .error e => .error e
+  | .ok (fk, sel) =>
+    if fk < km.length then
+      match recur (keyObj km) with
+      | .error e => .error e
+      | .ok item => .ok (items ++ [item])          -- append(listSliceIf, listItemIf)
+    else
+      match sel with
+      | some i =>
+        match items[i]? with
+        | none => .error .fuel                     -- impossible: `sel` is a position of `items`
+        | some it =>
+          match recur it with
+          | .error e => .error e
+          | .ok it' => .ok (items.set i it')       -- the item map was updated in place
+      | none =>
+        match nilRecur () with                     -- listItemMap is still the nil map
+        | .error e => .error e
+        | .ok () => .ok items
 
 /-- `addPathToTree`.  Every recursive call is on a strictly shorter path, so
     `fuel = len(path) + 1` is never exhausted. -/
@@ -224,37 +261,16 @@ def addPath (rfc : Bool) (ord : List (Str × Str) → List (Str × Str)) :
               match keyLoop e0.length (e0.drop b) [] with
               | .error e => .error e
               | .ok km =>
-                let slice : Option (List Json) :=
-                  match objGet m listName with
-                  | none => some []
-                  | some (.arr items) => some items
-                  | some _ => none
-                match slice with
+                match getSlice m listName with
                 | none => .error .listConv
                 | some items =>
-                  match scanItems (ord km) items 0 (0, none) with
+                  match listStep km (ord km) items
+                      (fun it => addPath rfc ord fuel ('/' :: refine) val it)
+                      (fun _ => nilAdd rfc (fun p => match fuel with
+                          | 0 => .error .fuel
+                          | f + 1 => addPath rfc ord f p val (.obj [])) ('/' :: refine) val) with
                   | .error e => .error e
-                  | .ok (fk, sel) =>
-                    if fk < km.length then
-                      match addPath rfc ord fuel ('/' :: refine) val (.obj (km.map fun kv => (kv.1, Json.str kv.2))) with
-                      | .error e => .error e
-                      | .ok item => .ok (.obj (objSet listName (.arr (items ++ [item])) m))
-                    else
-                      match sel with
-                      | some i =>
-                        match items[i]? with
-                        | none => .error .fuel       -- impossible: `sel` is a position of `items`
-                        | some it =>
-                          match addPath rfc ord fuel ('/' :: refine) val it with
-                          | .error e => .error e
-                          | .ok it' => .ok (.obj (objSet listName (.arr (items.set i it')) m))
-                      | none =>
-                        -- listItemMap is still the nil map
-                        match nilAdd rfc (fun p => match fuel with
-                              | 0 => .error .fuel
-                              | f + 1 => addPath rfc ord f p val (.obj [])) ('/' :: refine) val with
-                        | .error e => .error e
-                        | .ok () => .ok (.obj (objSet listName (.arr items) m))
+                  | .ok items' => .ok (.obj (objSet listName (.arr items') m))
         else
           if refine.isEmpty then .ok node
           else
